@@ -132,7 +132,9 @@ func genOptRaw(r *rand.Rand, ns *nameSpace, nsPrefix string, allowReq bool) *Opt
 		o.Required = true
 		o.ReqField = chance(r, 0.2) // made required through the public field after construction
 	}
-	if canArg && chance(r, 0.2) {
+	// (a default tag on an option whose type is bool underneath - also the bool-kinded Unmarshaler - is a setup error: C19's subject)
+	boolUnder := o.VType == "tb" && o.Kind != "map" && o.Kind != "func1"
+	if canArg && !boolUnder && chance(r, 0.2) {
 		n := 1
 		if (o.Kind == "slice" || o.Kind == "map" || o.Kind == "sliceptr" || o.Kind == "func1") && chance(r, 0.5) {
 			n = 2
